@@ -475,7 +475,7 @@ PROPS = {
     "C01": {
         "sub": "c01",
         "trivial": r"content=gen:\d+:0 ",
-        "lean_modules": ["DatamonVerif.Props.C01", "DatamonVerif.Props.C01Seq", "DatamonVerif.Props.C01Put"],
+        "lean_modules": ["DatamonVerif.Props.C01", "DatamonVerif.Props.C01Seq", "DatamonVerif.Props.C01Put", "DatamonVerif.Props.C01Delete"],
         "timeout_quick": 900, "timeout_thorough": 3400,
         "level_text": "Proof: theorems about the model of the cafs writer, Put and the three readers (all contents, leaf sizes, write "
                       "chunkings, read programs); model tied to pkg/cafs by differential runs of Put/Read/ReadAt/WriteTo on memstore.",
